@@ -3,7 +3,9 @@ package engb
 import (
 	"encoding/json"
 	"fmt"
+	"github.com/orda-io/orda/server/schema"
 	"os"
+	"regexp"
 	"runtime"
 	"sort"
 	"strings"
@@ -22,27 +24,30 @@ import (
 type abortRun struct{}
 
 type run struct {
-	prop      string
-	cfg       Config
-	w         *world
-	res       *kernel.Result
-	viol      *kernel.Violation
-	known     map[string]bool
-	step      int
-	verbose   bool
-	trace     *kernel.Hasher
-	slog      *kernel.Hasher
-	states    map[uint64]bool
-	colls     []string
-	lagging   map[string]bool // owners whose background work is deliberately left pending
-	held      []*heldResp
-	cmdNo     map[string]int // per owner: number of commands answered so far
-	mon       *monitors
-	decisions int
-	simStart  time.Time
-	stuck     bool
-	inTx      bool
-	stalled   map[*simmongo.Pending]int // database commands the simulated database is slow to answer
+	prop       string
+	cfg        Config
+	w          *world
+	res        *kernel.Result
+	viol       *kernel.Violation
+	known      map[string]bool
+	step       int
+	verbose    bool
+	trace      *kernel.Hasher
+	slog       *kernel.Hasher
+	states     map[uint64]bool
+	colls      []string
+	lagging    map[string]bool   // owners whose background work is deliberately left pending
+	lagAfter   int               // background commands of an answered call that are let through before it is left pending
+	bgDone     map[string]int    // background commands answered per owner
+	insertedBy map[string]string // operation document id -> owner of the insert command that stored it
+	held       []*heldResp
+	cmdNo      map[string]int // per owner: number of commands answered so far
+	mon        *monitors
+	decisions  int
+	simStart   time.Time
+	stuck      bool
+	inTx       bool
+	stalled    map[*simmongo.Pending]int // database commands the simulated database is slow to answer
 }
 
 type heldResp struct {
@@ -120,7 +125,7 @@ func Execute(t *testing.T, plan *kernel.Plan, known map[string]bool, verbose boo
 	r := &run{prop: plan.Property, cfg: cfg, known: known, verbose: verbose,
 		res:   &kernel.Result{Faults: map[string]int{}, Probes: map[string]int{}},
 		trace: kernel.NewHasher(), slog: kernel.NewHasher(), states: map[uint64]bool{},
-		lagging: map[string]bool{}, cmdNo: map[string]int{}, stalled: map[*simmongo.Pending]int{}}
+		lagging: map[string]bool{}, bgDone: map[string]int{}, insertedBy: map[string]string{}, cmdNo: map[string]int{}, stalled: map[*simmongo.Pending]int{}}
 	finish := func() {
 		r.res.Violation = r.viol
 		r.res.Steps = r.decisions
@@ -429,8 +434,16 @@ func (r *run) answerCmd(p *simmongo.Pending, faults []MongoFault) {
 		r.crashServer()
 		return
 	}
+	if p.Name == "insert" && p.Coll == schema.CollectionNameOperations && kind != simmongo.FaultErrBefore {
+		// who stored which operation document (exact, for the notification oracle)
+		for _, m := range opDocID.FindAllStringSubmatch(p.Key, -1) {
+			r.insertedBy[m[1]] = p.Owner
+		}
+	}
 	w.mongo.Answer(p, kind)
 }
+
+var opDocID = regexp.MustCompile(`"_id":"([^"]+:[0-9]+)"`)
 
 var noClip = os.Getenv("VERIF_NOCLIP") != ""
 
@@ -485,9 +498,81 @@ func (r *run) deliverResp(c *call, drop bool) {
 	res := *c.resp
 	if drop {
 		res = callResult{err: unavailable("response lost")}
+		c.dropped = true
 	}
 	r.mon.onResponse(r, c, res, drop)
+	r.noteErrorPacks(c, res)
 	c.done <- res
+}
+
+func clientCheckPoint(d *dtState) (sseq, cseq uint64) {
+	p := d.dt.CreatePushPullPack()
+	if p == nil || p.CheckPoint == nil {
+		return 0, 0
+	}
+	return p.CheckPoint.Sseq, p.CheckPoint.Cseq - uint64(len(p.Operations))
+}
+
+// noteErrorPacks remembers, for every pack with the error bit that is about to reach an honest client,
+// what the client's datatype looked like before.
+func (r *run) noteErrorPacks(c *call, res callResult) {
+	if res.err != nil {
+		return
+	}
+	resp, _ := res.msg.(*model.PushPullMessage)
+	a := r.actorByName(c.client)
+	if resp == nil || a == nil {
+		return
+	}
+	for _, p := range resp.PushPullPacks {
+		if !p.GetPushPullPackOption().HasErrorBit() {
+			continue
+		}
+		for _, d := range a.dts {
+			if d.key != p.Key {
+				continue
+			}
+			ps := preState{d: d, state: d.dt.GetState().String(), opt: p.GetPushPullPackOption().String()}
+			msg, _ := safely(func() { ps.sseq, ps.cseq = clientCheckPoint(d) })
+			if msg != "" {
+				continue
+			}
+			d.mu.Lock()
+			ps.errs = len(d.errs)
+			d.mu.Unlock()
+			if c.pre == nil {
+				c.pre = map[string]preState{}
+			}
+			c.pre[p.Key] = ps
+		}
+	}
+}
+
+// checkErrorPacks: a refusal reaches the error handler, is not taken for an acceptance and moves nothing.
+func (r *run) checkErrorPacks(c *call) {
+	for _, k := range sortedKeys(c.pre) {
+		ps := c.pre[k]
+		d := ps.d
+		d.mu.Lock()
+		nerr := len(d.errs)
+		d.mu.Unlock()
+		r.probe("error-pack-delivered")
+		if nerr <= ps.errs {
+			r.fail("refuse", "C16.error-reported", "handler-not-called", "%s: the answer for %s carried an error (option %s) but the client's error handler was not called", c.client, k, ps.opt)
+			r.fail("retry", "C08.error-reported", "handler-not-called", "%s: the answer for %s carried an error (option %s) but the client's error handler was not called", c.client, k, ps.opt)
+		}
+		now := d.dt.GetState().String()
+		if now == "SUBSCRIBED" && ps.state != "SUBSCRIBED" {
+			r.fail("refuse", "C16.error-not-applied", "became-subscribed", "%s: the answer for %s carried an error (option %s) but the datatype went from %s to SUBSCRIBED", c.client, k, ps.opt, ps.state)
+			r.fail("retry", "C08.error-not-applied", "became-subscribed", "%s: the answer for %s carried an error (option %s) but the datatype went from %s to SUBSCRIBED", c.client, k, ps.opt, ps.state)
+		}
+		var s2, c2 uint64
+		if msg, _ := safely(func() { s2, c2 = clientCheckPoint(d) }); msg == "" && (s2 != ps.sseq || c2 != ps.cseq) {
+			r.fail("refuse", "C16.error-not-applied", "checkpoint-moved", "%s: the answer for %s carried an error (option %s) but the client's checkpoint moved from (s:%d c:%d) to (s:%d c:%d)", c.client, k, ps.opt, ps.sseq, ps.cseq, s2, c2)
+			r.fail("retry", "C08.error-not-applied", "checkpoint-moved", "%s: the answer for %s carried an error (option %s) but the client's checkpoint moved from (s:%d c:%d) to (s:%d c:%d)", c.client, k, ps.opt, ps.sseq, ps.cseq, s2, c2)
+		}
+	}
+	c.pre = nil
 }
 
 // pump makes progress on the things in focus until nothing in focus is pending.
@@ -502,7 +587,7 @@ func (r *run) pump(f *focus, g *kernel.Rng, faults []MongoFault, stopAnswered bo
 			// background work of answered calls stays pending ("lag")
 			var keep []item
 			for _, it := range its {
-				if it.kind == "cmd" && r.ownerAnswered(it.p.Owner) {
+				if it.kind == "cmd" && r.ownerAnswered(it.p.Owner) && r.bgDone[it.p.Owner] >= r.lagAfter {
 					r.lagging[it.p.Owner] = true
 					continue
 				}
@@ -566,6 +651,9 @@ func (r *run) pump(f *focus, g *kernel.Rng, faults []MongoFault, stopAnswered bo
 			r.trace.Str("req").Str(it.c.method)
 			r.release(it.c)
 		case "cmd":
+			if r.ownerAnswered(it.p.Owner) {
+				r.bgDone[it.p.Owner]++
+			}
 			r.answerCmd(it.p, faults)
 		case "resp":
 			r.logf("  deliver response of %s to %s", callOwner(it.c), it.c.client)
